@@ -122,6 +122,8 @@ Definition rfa_match_x (tol : Qc) (m : res (list Qc * list Qc)) (ox : list Qc) (
         m = m if m is not None else rng.choice([2, 3, 3, 4, 5, 6, 8])
         n = n if n is not None else rng.choice([2, 3, 4, 4, 5, 8, 8, 16])      # (not `n or ...`: the factor 0 is a case of its own)
         c = {"strategy": strategy, "x": gens.sorted_x(rng, m) if rng.random() < 0.85 else gens.loose_x(rng, m), "y": gens.values(rng, m), "n": n, "int_x": False}
+        if isinstance(n, int) and rng.random() < 0.15:
+            c["n_np"] = True       # the factor as a NumPy integer scalar (np.rint(period / target).astype(int), an element of np.arange)
         if strategy in ("linfixed", "linadapt", "expfixed", "expadapt"):
             if rng.random() < 0.4:
                 ni = max(2, int(n))
@@ -228,7 +230,7 @@ Definition rfa_match_x (tol : Qc) (m : res (list Qc * list Qc)) (ox : list Qc) (
         x = np.array(c["x"], dtype=float)
         y = np.array(c["y"], dtype=float)
         try:
-            inst = cls_of(c["strategy"])(x, y, c["n"], **kwargs_of(c))
+            inst = cls_of(c["strategy"])(x, y, np.int64(c["n"]) if c.get("n_np") else c["n"], **kwargs_of(c))
             xs, ys = inst.rfa()
             o = {"kinds": [type(xs).__name__, type(ys).__name__],
                  "ndim": [int(np.ndim(xs)), int(np.ndim(ys))],
